@@ -7,10 +7,10 @@ PROP = 'C03'
 VARIANTS = ['asan']
 CLASSES = ['a', 'n', 'x', 'e', '0', '7', '8', 'f', ' ', '\t', '\n', '\\', '"', "'", '$', '{', '}', ':', '-', '#', '/', '*', '\x80', '\xff']
 ENVVALS = {'set': 'VAL', 'empty': '', 'meta': 'm"\\${q}#\n\'/*x*/ ', 'mid': 'm' * 45, 'long': ('0123456789' * 30)[:293] + 'END'}
-FRAMES = 8
+FRAMES = 10
 PER_CASE = 40
 RULE = ('literal bodies enumerated exhaustively up to length N over %d byte-class representatives, in double-quoted, single-quoted and '
-        'unquoted form, then random longer bodies; framed as  s = <literal> [comment]  or  l = {<literal>[, <literal>]}, with LF or CRLF line ends; bodies with a '
+        'unquoted form, then random longer bodies; framed as  s = <literal> [comment]  or  l = {<literal>[, <literal>]}, with LF or CRLF line ends or a comment glued to the literal; bodies with a '
         '${...} run under 4 environments (unset, set, empty, meta characters), long values (45 / 296 bytes) and long defaults (20 bytes .. 20 KB) at every scratch-buffer offset; oracle = model_lex (decoder written from the statement); plus agreement cases: the same ${...} bare and inside double quotes in one text must give equal values under 6 environments (covers the corners the model leaves open). '
         'non-trivial: body contains an escape, substitution, quote or newline; distinct = (form, body, env, framing)' % len(CLASSES))
 
@@ -30,6 +30,10 @@ def frame(fr, lit):
         return 's = %s\r\n' % lit                       # CRLF line ends: the CR directly follows the literal
     if fr == 7:
         return 'l = {%s\r\n, %s\r\n}\r\n' % (lit, lit)
+    if fr == 8:
+        return 's = %s#glued ${z} "\n' % lit                # a comment directly behind the literal
+    if fr == 9:
+        return 'l = {%s#c\n, %s/*c*/}\n' % (lit, lit)
     return 'l = { %s , %s }\n' % (lit, lit)
 
 
@@ -152,7 +156,7 @@ def script(spec):
                 L.append('setenv %s %s' % (hx(nm), hx(ENVVALS[envmode])))
         L.append('init 0 0 0')
         L.append('parse_buf 0 %s' % hx(frame(fr, model_lex.render(form, body))))
-        if fr < 4 or fr == 6:
+        if fr < 4 or fr in (6, 8):
             L.append('get 0 str %s 0' % hx('s'))
             L.append('get 0 size %s 0' % hx('s'))
         else:
@@ -185,8 +189,10 @@ def judge(spec, events, death):
         r, g, sz = evs[3 * k:3 * k + 3]
         env = {} if envmode == 'unset' else {nm: ENVVALS[envmode] for nm in model_lex.names_in(body)}
         exp = model_lex.decode(form, body, env)
-        if exp == ('reject', 'unterminated') and fr in (1, 2, 5, 7):
+        if exp == ('reject', 'unterminated') and fr in (1, 2, 5, 7, 8, 9):
             exp = ('skip', 'framing-has-a-later-quote')   # the open string would end at the framing's own quote
+        if fr == 9 and form == 'uq':
+            exp = ('skip', 'comment-opener-glued-to-a-bare-word')     # a slash continues a bare word: 'w/*c*/' is not a word followed by a comment
         if exp[0] in ('skip', 'unspec'):
             v.notes['not_judged_' + exp[0]] = v.notes.get('not_judged_' + exp[0], 0) + 1
             v.notes.setdefault('not_judged_reasons', set()).add(exp[0] + ':' + exp[1])
@@ -196,7 +202,7 @@ def judge(spec, events, death):
         if model_lex.nontrivial(form, body):
             v.notes.setdefault('nontrivial_literals', set()).add(zlib.crc32(repr((form, body, envmode, fr)).encode()))
         got = unhx(g['v'])
-        want_n = 2 if fr in (5, 7) else 1
+        want_n = 2 if fr in (5, 7, 9) else 1
         if exp[0] == 'ok':
             if r['rc'] != 0:
                 v.bad('%s:rejected-valid:%s' % (form, klass(form, body)), '%s literal %r (env %s, frame %d) must decode to %r but the parse failed rc=%s' % (form, body, envmode, fr, exp[1], r['rc']))
